@@ -52,6 +52,9 @@ type Env map[ssa.Value]Val
 type Outcome struct {
 	Ret     *ssa.Return
 	Results []Val
+	// Stores: constant values stored into struct fields on the path (by field
+	// name; last store wins) — lets a rule read a constructed struct literal.
+	Stores map[string]Val
 }
 
 // IsErr reports whether the outcome's last result is a definite error.
@@ -183,8 +186,19 @@ func (e *Evaluator) eval(fn *ssa.Function, args []Val, env Env, depth int) []Out
 					}
 				case *ssa.Jump:
 					next = b.Succs[0]
+				case *ssa.Store:
+					if fa, ok := x.Addr.(*ssa.FieldAddr); ok {
+						if st, ok := fa.X.Type().Underlying().(*types.Pointer).Elem().Underlying().(*types.Struct); ok {
+							vals[storeKey{st.Field(fa.Field).Name()}] = e.get(vals, x.Val)
+						}
+					}
 				case *ssa.Return:
-					o := Outcome{Ret: x}
+					o := Outcome{Ret: x, Stores: map[string]Val{}}
+					for k, v := range vals {
+						if sk, ok := k.(storeKey); ok {
+							o.Stores[sk.name] = v
+						}
+					}
 					key := ""
 					for _, rv := range x.Results {
 						v := e.get(vals, rv)
@@ -427,6 +441,18 @@ func GlobalMap(g *ssa.Global) (map[string]Val, bool) {
 	return tbl, complete
 }
 
+// storeKey records the last value stored into a struct field of that name.
+type storeKey struct {
+	name string
+}
+
+func (storeKey) Name() string                  { return "store" }
+func (storeKey) String() string                { return "store" }
+func (storeKey) Type() types.Type              { return nil }
+func (storeKey) Parent() *ssa.Function         { return nil }
+func (storeKey) Referrers() *[]ssa.Instruction { return nil }
+func (storeKey) Pos() token.Pos                { return token.NoPos }
+
 // tupleKey addresses a component of a tuple-valued call in the value map.
 type tupleKey struct {
 	ssa.Value
@@ -474,6 +500,12 @@ func (e *Evaluator) call(vals map[ssa.Value]Val, c *ssa.Call, env Env, depth int
 	switch callee.String() {
 	case "fmt.Errorf", "errors.New":
 		return Val{K: Err}
+	case "math/bits.Len", "math/bits.Len32", "math/bits.Len64":
+		a := e.get(vals, cc.Args[0])
+		if a.K == Const && a.C.Kind() == constant.Int && constant.Sign(a.C) >= 0 {
+			return C(int64(constant.BitLen(a.C)))
+		}
+		return Val{}
 	}
 	if callee.Blocks == nil || depth >= e.MaxDepth {
 		return Val{}
